@@ -10,7 +10,7 @@ use serde_json::json;
 use std::collections::BTreeSet;
 use txtpp::Mode;
 
-pub const SIGMA_CLEAN: [&str; 19] = [
+pub const SIGMA_CLEAN: [&str; 20] = [
     "+TXTPP#temp sub/t3.out",
     "-TXTPP#temp ./t4.out",
     "-TXTPP#include missing.txt",
@@ -30,7 +30,11 @@ pub const SIGMA_CLEAN: [&str; 19] = [
     "-TXTPP#",
     "-TXTPP#temp h.txtpp.txt",
     "TXTPP#temp keep.txt",
+    "-TXTPP#temp lnk.out",
 ];
+
+/// temp target that is a (dangling) symbolic link: the file behind it is what build creates and clean removes
+const LINK_TARGET: (&str, &str) = ("lnk.out", "sub/real2.out");
 
 fn helpers_clean() -> Tree {
     let mut t = Tree::new();
@@ -41,6 +45,7 @@ fn helpers_clean() -> Tree {
     tfile(&mut t, "s.txt.bak", "near miss\n");
     // an existing txtpp source in the infix name shape: a temp directive naming it is an error, never a target
     tfile(&mut t, "h.txtpp.txt", "another source\n");
+    t.insert(LINK_TARGET.0.to_string(), Node::Link(LINK_TARGET.1.to_string()));
     t
 }
 
@@ -72,6 +77,9 @@ pub fn check_source(rep: &Report, prop: &str, b: &Bench, help: &Tree, src: &[u8]
         None => return,
     };
     let mut allowed: BTreeSet<String> = temps.iter().filter_map(|t| crate::model::resolve("", t)).collect();
+    if allowed.remove(LINK_TARGET.0) {
+        allowed.insert(LINK_TARGET.1.to_string());
+    }
     if prop == "C07" && allowed.iter().any(|t| help.contains_key(t)) {
         // a real temp directive (also one after a directive error, which clean ignores) names a pre-existing
         // file: ill-formed project (D1), build would overwrite it
@@ -374,36 +382,101 @@ fn mini_histories(rep: &Report, prop: &str, b: &Bench, help: &Tree, src: &[u8]) 
 }
 
 pub fn run_into(rep: &Report, prop: &str) {
-    let max_len = if rep.thorough() { if prop == "C07" || prop == "C10" { 5 } else { 4 } } else { 3 };
+    let max_len = if rep.thorough() { 4 } else { 3 };
+    let deep = rep.thorough() && (prop == "C07" || prop == "C10");
     let help = helpers_clean();
     rep.set("source_enumeration_alphabet", json!(SIGMA_CLEAN));
-    rep.set("source_enumeration_bound", json!(format!("all sources of <= {max_len} lines over the 19-line alphabet above (directive look-alikes as continuation lines of multi-line directives, temp directives naming pre-existing files)")));
-    sharded_dyn(rep, par_threads(), |_k, _n, next, rep| {
-        let b = Bench::new(&help);
-        let stop = || rep.over_cap();
-        for_each_seq(SIGMA_CLEAN.len(), max_len, next, &stop, &mut |seq| {
-            let lines: Vec<&str> = seq.iter().map(|&i| SIGMA_CLEAN[i]).collect();
-            let src = build_source(&lines, false, true);
-            check_source(rep, prop, &b, &help, &src);
-            // short sources also without the final newline (a one-line source then holds no line ending at all)
-            if lines.len() <= 2 && !lines.is_empty() && lines.last() != Some(&"") {
-                let src = build_source(&lines, false, false);
+    rep.set("source_enumeration_bound", json!(format!("all sources of <= {max_len} lines over the 20-line alphabet above (directive look-alikes as continuation lines of multi-line directives, temp directives naming pre-existing files, txtpp files, a symbolic link){}", if deep { "; all sources of 5 lines over its first 14 lines" } else { "" })));
+    if prop == "C08" {
+        two_pass_prestates(rep);
+    }
+    let passes: Vec<(usize, usize, usize)> = if deep { vec![(SIGMA_CLEAN.len(), max_len, 0), (14, 5, 5)] } else { vec![(SIGMA_CLEAN.len(), max_len, 0)] };
+    for (alpha, len, only_len) in passes {
+        sharded_dyn(rep, par_threads(), |_k, _n, next, rep| {
+            let b = Bench::new(&help);
+            let stop = || rep.over_cap();
+            for_each_seq(alpha, len, next, &stop, &mut |seq| {
+                if only_len != 0 && seq.len() != only_len {
+                    return;
+                }
+                let lines: Vec<&str> = seq.iter().map(|&i| SIGMA_CLEAN[i]).collect();
+                let src = build_source(&lines, false, true);
                 check_source(rep, prop, &b, &help, &src);
-                rep.add("sources_without_final_newline", 1);
-            }
-            rep.st(1);
-            rep.add("sources_enumerated", 1);
-            if seq == [5, 7] {
-                rep.sample(json!({"source": show(&src), "note": "the second line is text written by `write`, not a temp directive"}));
+                // short sources also without the final newline (a one-line source then holds no line ending at all)
+                if lines.len() <= 2 && !lines.is_empty() && lines.last() != Some(&"") {
+                    let src = build_source(&lines, false, false);
+                    check_source(rep, prop, &b, &help, &src);
+                    rep.add("sources_without_final_newline", 1);
+                }
+                rep.st(1);
+                rep.add("sources_enumerated", 1);
+                if seq == [5, 7] {
+                    rep.sample(json!({"source": show(&src), "note": "the second line is text written by `write`, not a temp directive"}));
+                }
+            });
+            if rep.over_cap() {
+                rep.note_cap("wall-clock cap in the source enumeration");
             }
         });
-        if rep.over_cap() {
-            rep.note_cap("wall-clock cap in the source enumeration");
+    }
+}
+
+/// C08 on a source that is processed in two passes (it has a .txtpp dependency) and generates a file which it
+/// includes later: the verdict of either pass and the final bytes must not depend on what the generated paths held.
+fn two_pass_prestates(rep: &Report) -> usize {
+    let mut help = helpers_clean();
+    tfile(&mut help, "dep.txt.txtpp", "D\n");
+    tfile(&mut help, "dep.txt", "D\n");
+    let b = Bench::new(&help);
+    let sources: [(&str, &str); 3] = [
+        ("x\nTXTPP#include dep.txt\n-TXTPP#temp t.out\n-body\n=TXTPP#include t.out\ny\n", "t.out"),
+        ("TXTPP#after dep.txt\n-TXTPP#temp t.out\n-b1\n-b2\n=TXTPP#include ./t.out\n", "t.out"),
+        ("x\nTXTPP#include dep.txt\n-TXTPP#run printf made > made.txt\n=TXTPP#include made.txt\ny\n", "made.txt"),
+    ];
+    let mut found = 0;
+    for (src, gen) in sources {
+        let src = src.as_bytes();
+        let mut reference: Option<(String, String, Option<Vec<u8>>, Option<Vec<u8>>)> = None;
+        for (what, pre) in [("absent", None), ("stale text", Some(&b"STALE\n"[..])), ("not UTF-8", Some(&b"\x68\xc3"[..])), ("empty", Some(&b""[..])), ("CRLF text", Some(&b"a\r\nb\r\n"[..]))] {
+            for mode in [Mode::Build, Mode::InMemoryBuild] {
+                reset_tree(&b, &help, src);
+                if let Some(bytes) = pre {
+                    std::fs::write(b.base.join(gen), bytes).unwrap();
+                    std::fs::write(b.base.join(OUT), bytes).unwrap();
+                }
+                let r1 = b.run_no_reset(mode.clone(), true, true);
+                let r2 = b.run_no_reset(mode.clone(), false, true);
+                rep.tv(2);
+                rep.tr(1);
+                rep.add("two_pass_prestate_runs", 1);
+                let got = (r1.v.kind().to_string(), r2.v.kind().to_string(), r2.out.clone(), std::fs::read(b.base.join(gen)).ok());
+                match (&reference, mode == Mode::Build && what == "absent") {
+                    (None, _) => reference = Some(got),
+                    (Some(want), _) => {
+                        if *want != got {
+                            found += 1;
+                            rep.violate(
+                                "build-depends-on-prestate",
+                                format!("two-pass source {:?}, generated paths {what}, {:?}: passes end {} / {} with output {:?}; from a tree without them: {} / {} with output {:?}", show(src), mode, got.0, got.1, got.2.as_ref().map(|x| show(x)), want.0, want.1, want.2.as_ref().map(|x| show(x))),
+                                json!({"engine": "E-clean", "prop": "C08", "two_pass": true}),
+                            );
+                        }
+                    }
+                }
+            }
         }
-    });
+        if reference.map(|r| r.1 != "Ok").unwrap_or(true) {
+            rep.machinery(format!("two-pass source {:?} does not build from a clean tree", show(src)));
+        }
+    }
+    found
 }
 
 pub fn replay(v: &serde_json::Value) -> bool {
+    if v["two_pass"].as_bool() == Some(true) {
+        let rep = Report::new("C08", "quick");
+        return two_pass_prestates(&rep) > 0;
+    }
     let prop = v["prop"].as_str().unwrap_or("C07");
     let src = unb64(v["source_b64"].as_str().unwrap_or(""));
     let help = helpers_clean();
